@@ -15,17 +15,18 @@ def mc_jobs(ctx):
     jobs = [
         # closures in containers, one context
         ("containers", {"DeclSet": "{6, 7}", "Name": '{"f"}', "Vias": '{"exec", "run"}', "MaxSteps": 4 if q else 6,
-                        "Acts": acts("define", "del", "push", "pop", "clear", "fire", "set", "unload")}, inv, prop, None),
+                        "Acts": acts("define", "del", "push", "pop", "clear", "tick", "fire", "set", "unload")}, inv, prop, None),
         # three names, rebinding
         ("names3", {"DeclSet": "{5, 7}", "Name": '{"f", "g", "h"}', "MaxSteps": 4 if q else 6,
-                    "Acts": acts("define", "del", "rebind", "fire", "set")}, inv, prop, None),
+                    "Acts": acts("define", "del", "rebind", "tick", "fire", "set")}, inv, prop, None),
         # two contexts: file load while HA starts, reload, file delete, unload
         ("files", {"DeclSet": "{7, 8}", "Ctx": '{"c1", "c2"}', "StartedSet": "{TRUE, FALSE}", "MaxDefs": 1,
                    "MaxSteps": 3 if q else 4, "Name": '{"f"}' if q else '{"f", "g"}', "MaxGen": 3 if q else 4,
                    "Acts": acts("boot", "reload", "close", "unload", "define", "del", "fire", "set", "call")}, inv, prop, None),
         # deferred stops (windows), both subsystems
         ("windows", {"DeclSet": "{7, 8}", "SubSet": '{"dm", "legacy"}', "Eager": "FALSE", "MaxGen": 3, "MaxSteps": 4 if q else 6,
-                     "Acts": acts("define", "del", "push", "clear", "fire", "set", "call", "unload")}, inv, prop, None),
+                     "Acts": acts("define", "del", "push", "clear", "fire", "set", "call", "unload") if q else
+                     acts("define", "del", "push", "clear", "tick", "fire", "set", "call", "unload")}, inv, prop, None),
     ]
     # file contents with two definitions (also of the same name), one context; contents whose top level fails after them
     jobs.append(("contents2", {"DeclSet": "{4, 7}", "StartedSet": "{TRUE, FALSE}", "MaxDefs": 2, "MaxSteps": 2 if q else 3,
@@ -62,12 +63,20 @@ def mc_jobs(ctx):
                                                      "MaxSteps": 2, "Vias": '{"run"}', "Acts": acts("define", "push")}, inv, prop,
          {"ActiveIffReferencedAndLoaded"}),
     ]
+    # round 4: what the same-tick rule excludes - the stop of a function whose last reference went away is only
+    # scheduled (not present in the pinned tree): the occurrence right behind the statement runs the dead function
+    jobs.append(("flag:dm-stop-only-scheduled", {"FlagSets": '{{"dm-stop-only-scheduled"}}', "DeclSet": "{4}", "MaxSteps": 2,
+                                                 "Acts": acts("define", "del", "tick", "fire", "call")}, inv, prop, {"NoRunOfDeadGeneration"}))
+    if not q:   # ... and an occurrence from anywhere in the window before the scheduled stop runs
+        jobs.append(("flag:dm-stop-only-scheduled:window", {"FlagSets": '{{"dm-stop-only-scheduled"}}', "Eager": "FALSE", "DeclSet": "{4}",
+                                                            "MaxSteps": 2, "Acts": acts("define", "del", "fire", "call")}, inv, prop,
+                     {"NoRunOfDeadGeneration"}))
     if q:       # quick tier: only the deviations still present in the code under test (every TLC run costs a JVM start);
         # the configurations of the repaired ones (known_findings.jsonl: fixed) are checked in the thorough tier
-        live = ("flag:service-handler-not-repointed", "flag:session-import-module-not-started")
+        live = ("flag:dm-stop-only-scheduled",)
         jobs = [j for j in jobs if not j[0].startswith("flag:") or j[0] in live]
-    for w in ("W_NoUnloadAfterActivity", "W_NoShutdownRun", "W_NoClosureHeld"):
-        jobs.append((w, {"DeclSet": "{7}", "Name": '{"f"}', "MaxSteps": 4, "Acts": acts("define", "del", "push", "unload")},
+    for w in ("W_NoUnloadAfterActivity", "W_NoShutdownRun", "W_NoClosureHeld", "W_NoTickBehindRemoval"):
+        jobs.append((w, {"DeclSet": "{7}", "Name": '{"f"}', "MaxSteps": 4, "Acts": acts("define", "del", "push", "unload", "tick")},
                      [w], [], {w}))
     # round 3: import inside a running function, importer reloaded (module lives on), then a load that fails
     w = "W_NoModuleOutlivesImporterNorFailedLoad"
@@ -78,7 +87,7 @@ def mc_jobs(ctx):
 
 def main(ctx):
     sizes = {"sim": ctx.pick(6, 120), "depth": ctx.pick(8, 14), "rnd": ctx.pick(10, 150), "steps": ctx.pick(18, 40),
-             "simsplit": ctx.pick(3, 6), "race": ctx.pick(6, 80)}
+             "simsplit": ctx.pick(3, 6), "race": ctx.pick(6, 80), "tick": ctx.pick(8, 80)}
     L.main_common(ctx, "C09", mc_jobs(ctx),
-                  {"MaxGen": 8, "DeclSet": "{1, 4, 6, 7, 8, 9, 11, 12, 13, 18, 20}" if ctx.quick else "AllDecls",
+                  {"MaxGen": 8, "DeclSet": "{1, 4, 6, 7, 8, 9, 11, 12, 13, 18, 20, 23}" if ctx.quick else "AllDecls",
                    "DeclSet_masked": "{1, 4, 7, 8, 10, 11, 13, 16, 19}" if ctx.quick else "MaskedDecls"}, L.DECL_POOL, sizes)
